@@ -147,6 +147,17 @@ pub fn c09(c: &mut Ctx, b: &Budget) {
                 if x.digest() == signed.digest() { import(c, &x); verify_all(c, &x, "after obscuring the 'signed' predicate"); c.count("branch:signed-predicate-obscured"); }
             }
         }
+        // merging in a copy of the same envelope that discloses less (its 'signed' assertions elided, compressed, or their objects elided):
+        // what is already held in the clear stays, and the signatures keep verifying
+        for sa in signed.assertions_with_predicate(known_values::SIGNED) {
+            let mut forms = vec![sa.elide(), sa.compress().unwrap_or(sa.clone())];
+            if let Some(o) = sa.as_object() { forms.push(sa.elide_removing_target(&o)); }
+            for f in forms {
+                for merged in [guarded(|| signed.add_assertion_envelope(f.clone()).unwrap()), guarded(|| signed.add_assertions(&[f.clone()])), guarded(|| signed.add_assertion_envelope_salted(f.clone(), false).unwrap())] {
+                    if let Ok(m) = merged { c.check("add-present-noop", m.is_identical_to(&signed), "signature-lost", || format!("adding a less disclosing copy of a held 'signed' assertion changed the envelope: {} -> {}", shape(&signed), shape(&m))); verify_all(c, &m, "after merging a redacted copy of a signature"); }
+                }
+            }
+        }
         let more = signed.add_assertion("later", i as u64).add_assertion(known_values::NOTE, "added after signing");
         verify_all(c, &more, "after adding assertions");
         let enc = guarded(|| signed.encrypt_subject(&SymmetricKey::new()));
@@ -645,6 +656,30 @@ pub fn c11(c: &mut Ctx, b: &Budget) {
                 c.count("branch:public-split-twice");
             }
         }
+        // share assertions annotated or salted after the split (a custodian's name, a salt): a quorum of such envelopes still joins
+        if pi % 2 == 1 {
+            let decorate = |s: &Envelope, how: usize| -> Envelope {
+                let sa = s.assertions_with_predicate(known_values::SSKR_SHARE)[0].clone();
+                let deco = match how { 0 => sa.add_assertion("custodian", "Alice"), 1 => sa.add_salt(), _ => sa.clone() };
+                s.remove_assertion(sa).add_assertion_envelope(deco).unwrap()
+            };
+            for how in 0..2 {
+                let dshares: Vec<Envelope> = flat.iter().enumerate().map(|(k, x)| decorate(&x.2, if k % 3 == 2 { 2 } else { how })).collect();
+                let refs: Vec<&Envelope> = dshares.iter().collect();
+                let got = guarded(|| Envelope::sskr_join(&refs));
+                c.check("join-iff-quorum", matches!(&got, Ok(Ok(j)) if j.is_identical_to(&e)), "join-fails-with-quorum", || format!("all share envelopes, their share assertions {}: {:?}", if how == 0 { "annotated" } else { "salted" }, got.as_ref().map(|r| r.as_ref().map(|_| ()).map_err(|e| e.to_string()))));
+            }
+            c.count("branch:decorated-shares");
+        }
+        // many joins on one thread: the thousandth quorum joins like the first (nothing accumulates across calls)
+        if pi == 0 {
+            let all_refs: Vec<&Envelope> = flat.iter().map(|x| &x.2).collect();
+            let rounds = if b.thorough { 20000 } else { 4000 };
+            let mut failed_at = None;
+            for k in 0..rounds { if !matches!(guarded(|| Envelope::sskr_join(&all_refs)), Ok(Ok(_))) { failed_at = Some(k); break; } }
+            c.check("join-iff-quorum", failed_at.is_none(), "join-fails-with-quorum", || format!("join number {} of the same full set of shares on one thread failed", failed_at.unwrap_or(0)));
+            c.count_n("endurance-joins", rounds as u64);
+        }
         // shares mixed from two different splits (identifier collisions regenerated)
         let ck2 = SymmetricKey::new();
         let e2 = Envelope::new("another secret").wrap_envelope();
@@ -860,7 +895,7 @@ pub fn c18(c: &mut Ctx, b: &Budget) {
     for i in 0..rounds {
         c.begin("expressions");
         // every constructor: by value, by run-time name, by static name (the const constructors), known with a static / owned name
-        let f: Function = match i % 6 { 0 | 2 => Function::from((i as u64 % 7) + 1), 1 => Function::from(FN_NAMES[(i / 2) % FN_NAMES.len()]), 3 => Function::new_static_named(FN_NAMES[(i / 2) % FN_NAMES.len()]),
+        let f: Function = match i % 6 { 0 => Function::from((i as u64 / 6) % 18), 2 => Function::from((i as u64 % 7) + 1), 1 => Function::from(FN_NAMES[(i / 2) % FN_NAMES.len()]), 3 => Function::new_static_named(FN_NAMES[(i / 2) % FN_NAMES.len()]),
             4 => Function::new_with_static_name((i as u64 % 7) + 1, "staticName"), _ => Function::new_known((i as u64 % 7) + 1, Some(format!("owned{}", i))) };
         c.count(&format!("function-ctor:{}", i % 6));
         let mut ex = Expression::new(f.clone());
@@ -871,6 +906,15 @@ pub fn c18(c: &mut Ctx, b: &Budget) {
             let v = base_envelope(c, 1);
             ex = ex.with_parameter(p.clone(), v.clone());
             params.push((p, v));
+        }
+        // the same parameter given more than once, in both orders of its arguments (and a parameter repeated with equal arguments)
+        if i % 3 == 0 {
+            let rp = Parameter::from(PARAM_NAMES[i % PARAM_NAMES.len()]);
+            let (v1, v2) = (Envelope::new(format!("arg {}", i)), Envelope::new(i as u64));
+            let (first, second) = if (i / 3) % 2 == 0 { (v1.clone(), v2.clone()) } else { (v2.clone(), v1.clone()) };
+            ex = ex.with_parameter(rp.clone(), first.clone()).with_parameter(rp.clone(), second.clone());
+            params.push((rp.clone(), first)); params.push((rp, second));
+            c.count("branch:repeated-parameter");
         }
         let env: Envelope = ex.clone().into();
         import(c, &env);
@@ -1037,10 +1081,13 @@ pub fn c19(c: &mut Ctx, b: &Budget) {
         let mut added: Vec<(Envelope, String, Option<String>)> = vec![];
         let mut cur = e.clone();
         for k in 0..n {
-            let payload = if k % 2 == 0 { base_envelope(c, 2) } else { Envelope::new(format!("payload {}", k)) };
+            // payloads in every form an envelope can take: the query hands back what was attached, as it was attached
+            let payload = match (k + i) % 6 { 0 => base_envelope(c, 2), 1 => Envelope::new(format!("payload {}", k)), 2 => base_envelope(c, 2).compress().unwrap_or(Envelope::new("z")), 3 => base_envelope(c, 1).elide(),
+                4 => base_envelope(c, 1).wrap_envelope(), _ => { let x = base_envelope(c, 2); x.compress_subject().unwrap_or(x) } };
             let v = vendors[c.rng.below(3)]; let cf = confs[c.rng.below(3)];
             cur = cur.add_attachment(payload.clone(), v, cf);
-            if !added.iter().any(|(p, vv, cc)| p.is_identical_to(&payload) && vv == v && cc.as_deref() == cf) { added.push((payload, v.to_string(), cf.map(|s| s.to_string()))); }
+            // (an attachment whose digest the envelope already holds - the same payload in another form - is not added again: the first form stays)
+            if !added.iter().any(|(p, vv, cc)| p.is_equivalent_to(&payload) && vv == v && cc.as_deref() == cf) { added.push((payload, v.to_string(), cf.map(|s| s.to_string()))); }
         }
         import(c, &cur);
         let pre_existing = e.assertions_with_predicate(known_values::ATTACHMENT).len();
